@@ -513,7 +513,89 @@ func determinismSelftest(prop, tier string, seed uint64, bins map[bool]string, r
 	return res, nil
 }
 
-func selftestMain(seed uint64, workers int) int {
-	fmt.Println("use: vcheck <property> (the determinism self-test runs inside every check); scripts/selftest.sh runs the large one")
+// selftestMain is the large determinism self-test: for every claimed property
+// and both builds, the same sub-seeds are executed in many separate processes
+// under GOMAXPROCS 1, 4 and 16 (several processes per setting, all running at
+// once so that they also compete for cores) and every per-run event-log hash,
+// result hash and non-race verdict must agree.
+func selftestMain(seed uint64, subseeds int) int {
+	var err error
+	scratch, err = os.MkdirTemp("", "verif-selftest-")
+	if err != nil {
+		fatal2("mktemp: %v", err)
+	}
+	defer cleanup()
+	info, err := prepare(repoDir, verifDir, filepath.Join(scratch, "src"), false)
+	if err != nil {
+		fatal2("prepare: %v", err)
+	}
+	bins := map[bool]string{}
+	for _, race := range []bool{false, true} {
+		if bins[race], err = buildSim(info, race); err != nil {
+			fatal2("build: %v", err)
+		}
+	}
+	type job struct {
+		prop string
+		race bool
+		gmp  int
+		rep  int
+		out  runOut
+	}
+	props := []string{"C04", "C05", "C06", "C14"}
+	bad := 0
+	for _, prop := range props {
+		for _, race := range []bool{false, true} {
+			n := subseeds
+			if race {
+				n = subseeds / 2
+			}
+			if prop == "C04" {
+				n = n / 2
+			}
+			var jobs []*job
+			for _, gmp := range []int{1, 4, 16} {
+				for rep := 0; rep < 5; rep++ {
+					jobs = append(jobs, &job{prop: prop, race: race, gmp: gmp, rep: rep})
+				}
+			}
+			sem := make(chan struct{}, 15)
+			done := make(chan struct{})
+			for _, j := range jobs {
+				go func(j *job) {
+					sem <- struct{}{}
+					rd := filepath.Join(scratch, "real", fmt.Sprintf("%s-%v-%d-%d", j.prop, j.race, j.gmp, j.rep))
+					os.MkdirAll(rd, 0o755)
+					j.out = runWorker(bins[j.race], j.gmp, filepath.Join(scratch, "racelog"), "--prop", j.prop, "--tier", "quick", "--seed", strconv.FormatUint(seed, 10),
+						"--worker", "0", "--workers", "1", "--runs", strconv.Itoa(n), "--emit-hashes", "--realdir", rd, "--maxfail", "1000000")
+					<-sem
+					done <- struct{}{}
+				}(j)
+			}
+			for range jobs {
+				<-done
+			}
+			ref := jobs[0].out
+			if ref.rep == nil || ref.code != 0 {
+				fatal2("self-test worker failed: %s", tail(ref.stderr, 10))
+			}
+			diverged := 0
+			for _, j := range jobs[1:] {
+				if j.out.rep == nil || j.out.code != 0 {
+					fatal2("self-test worker failed: %s", tail(j.out.stderr, 10))
+				}
+				if strings.Join(j.out.rep.Hashes, ",") != strings.Join(ref.rep.Hashes, ",") {
+					diverged++
+					fmt.Printf("DIVERGED %s race=%v GOMAXPROCS=%d rep=%d\n", prop, race, j.gmp, j.rep)
+				}
+			}
+			bad += diverged
+			fmt.Printf("selftest %s race_build=%v: %d sub-seeds x %d processes (GOMAXPROCS 1/4/16 x 5, concurrently): %d diverged\n", prop, race, len(ref.rep.Hashes), len(jobs), diverged)
+		}
+	}
+	if bad > 0 {
+		fmt.Println("CANNOT-DECIDE: the simulator is not deterministic")
+		return 2
+	}
 	return 0
 }
